@@ -135,8 +135,8 @@ fn one<E: FieldElement<BaseField = Toy>>(sc: &Scenario) -> Result<Value, String>
         },
         None => None,
     };
-    // the main columns the prover is given: the prover stage of Trace_Verifier interpolates them (base-field events)
-    let tcols: Vec<Vec<u64>> = if E::EXTENSION_DEGREE == 1 { cols.iter().map(|c| c.iter().map(|e| e.v()).collect()).collect() } else { vec![] };
+    // the main columns the prover is given: the prover stage of Trace_Verifier interpolates them 
+    let tcols: Vec<Vec<u64>> = cols.iter().map(|c| c.iter().map(|e| e.v()).collect()).collect();
     let proof = prove_with::<Toy, H, RecCoin<H>>(sc, cols, claim).map_err(|e| format!("prove: {e}"))?;
     clog_take();
     ROLES.with(|r| r.borrow_mut().clear());
